@@ -457,6 +457,12 @@ def run(ck: Check):
     ck.assumptions.append("tie by translation (complexToFloat): gen/py2lean.py reads the Python subset it documents correctly "
                           "(int = Int, & >> as in Model/PyInt.lean); float(mantissa) * RADIX_MULTS[i] is kept symbolic "
                           "and interpreted by the generated table")
+    ck.partial.append("text shape of '%f' (sign, integer digits, '.', six zero-padded places, '-0.000000'): stated by "
+                      "definition (Spec.microText = the model's) and examples, tied to CPython by the stream cpython-%f; "
+                      "the rounding itself is proved against an independent formulation")
+    ck.partial.append("spelling of non-finite TYPE_FLOAT values: theorem float_nonfinite states what the code prints "
+                      "(inf / -inf / nan); Android spells them Infinity / NaN - outside the property, CPython's "
+                      "spelling tied by correspondence only")
     ck.assumptions.append("binary64 arithmetic of the fixed code is modelled by exact rationals (sound: float() of a "
                           "32-bit integer, multiplication by a power of two and by 100 are exact; theorems radix_exact, "
                           "complex_binary64); CPython '%f' is round-half-even to six places (checked by the correspondence "
